@@ -286,8 +286,8 @@ def run_l1(ctx, case, exprs, checks):
     res = {}
     # npy, both modes (+ default mode None, + an invalid mode)
     p = write_files(specs, 'npy')
+    res['memory'] = impl_loader(p, keep, conv, exc, 'memory', count=True)     # first: np.empty must not find the time-mode arrays
     res['time'] = impl_loader(p, keep, conv, exc, 'time', count=True)
-    res['memory'] = impl_loader(p, keep, conv, exc, 'memory', count=True)
     res['none'] = impl_loader(p, keep, conv, exc, None, count=True)
     if case.get('badmode'):
         res['bad'] = impl_loader(p, keep, conv, exc, 'fast')
@@ -1197,7 +1197,8 @@ def normalise_spec(fs):
 
 def gen_file(rng, sch, n, synth=False, big=False):
     if synth or n > 80:
-        return {'sch': sch, 'coef': [[rng.randint(-500, 500), rng.randint(-3, 3)] for _ in sch], 'n': n}
+        # non-zero slopes: every row distinct, so that an unwritten (np.empty) cell cannot hold the right value by reuse
+        return {'sch': sch, 'coef': [[rng.randint(-500, 500), rng.choice([-3, -2, -1, 1, 2, 3])] for _ in sch], 'n': n}
     return normalise_spec({'sch': sch, 'rows': gen_rows(rng, len(sch), n, big)})
 
 
@@ -1437,6 +1438,12 @@ def corpus_cases():
         for exc_str in (False, True):
             both.append(dict(base, cfg=[[1, 4], [4, 8], [7, 8]], dsf=[], exp=[fr], mc=[fmc], exp_ren=exp_ren, mc_ren=[[2, 4]],
                              conv=[[3, 1]], exc=[4], exc_str=exc_str, try_pkl=False))
+    # deterministic block-crossing tables (every field kept / a subset with a conversion), both modes
+    subs.append({'level': 1, 'files': [{'sch': [[0, 3], [3, 1]], 'coef': [[7, 1], [-5, 2]], 'n': 4097}], 'keep': None,
+                 'conv': [], 'exc': [], 'badmode': False})
+    subs.append({'level': 1, 'files': [{'sch': [[2, 3], [1, 0]], 'coef': [[100, 3], [1, -1]], 'n': 4100},
+                                       {'sch': [[1, 0], [2, 3]], 'rows': [[5, 6]]}], 'keep': [2, 9],
+                 'conv': [[3, 1]], 'exc': [], 'badmode': False})
     return subs + both + [
         # dataset-level analysis field must survive tidy_up (fix 5fbad79)
         dict(base, cfg=[[0, 4]], dsf=[[8, 4]], exp=[f]),
